@@ -382,7 +382,47 @@ def replay_find_or_add(obligation, model, meta):
             return {'confirmed': True, 'inputs': {'u.v': [None, None, None], 'link.v': link.v, 'helper already on bus4': pre_existing},
                     'observed': 'referrers linked to %r; helpers per target %r' % (list(df.v), per_target),
                     'native_cmd': 'DeviceFinder.find_or_add(stub system)'}
-    return {'confirmed': False, 'tried': 2}
+    # explicit, valid entries are kept whatever happened to other referrers on the same target
+    for uv, links in (([None, 'HX', None], ['bus4', 'bus4', 'bus4']), (['HX', None, 'HX'], ['bus4', 'bus4', 'bus7']), ([None, None, 'HX'], ['bus7', 'bus4', 'bus7'])):
+        devices = {'HX': 'bus9'}          # an existing helper somewhere else, named explicitly by some referrers
+
+        class Helper2:
+            def find_idx(self, keys, values, allow_none=False, default=None, allow_all=False):
+                out = []
+                vals = values[0] if isinstance(values[0], (list, tuple)) else [values[0]]
+                for val in vals:
+                    hit = [i for i, tgt in devices.items() if (i if keys == 'idx' else tgt) == val]
+                    out.append(hit[0] if hit else default)
+                return out
+        helper = Helper2()
+
+        def add2(model, param_dict):
+            idx = 'H%d' % (len(devices) + 10)
+            devices[idx] = param_dict['link']
+            return idx
+        system = SimpleNamespace(models={'Helper': helper}, groups={}, add=add2, link_ext_param=lambda *a, **k: None, __dict__=None)
+        system.__dict__.update({'Helper': helper})
+        helper.name = 'Helper'
+        helper.idx = SimpleNamespace(v=list(devices))
+        helper.uid = {k: i for i, k in enumerate(devices)}
+        helper.list2array = lambda *a, **k: None
+        helper.refresh_inputs = lambda *a, **k: None
+        owner = SimpleNamespace(class_name='Owner', idx=SimpleNamespace(v=[1, 2, 3]))
+        u = SimpleNamespace(v=list(uv), owner=owner, name='busf', model='Helper')
+        link = SimpleNamespace(v=list(links))
+        df = DeviceFinder(u, link=link, idx_name='link', default_model='Helper')
+        df.owner = owner
+        df.find_or_add(system)
+        bad = None
+        for k, (given, tgt) in enumerate(zip(uv, links)):
+            if given is not None and df.v[k] != given:
+                bad = 'referrer %d named the existing helper %r explicitly and was re-pointed to %r' % (k, given, df.v[k])
+            if given is None and devices.get(df.v[k]) != tgt:
+                bad = 'referrer %d (no helper named) on %r is linked to %r, which sits on %r' % (k, tgt, df.v[k], devices.get(df.v[k]))
+        if bad:
+            return {'confirmed': True, 'inputs': {'u.v': uv, 'link.v': links, 'existing helper': {'HX': 'bus9'}}, 'observed': bad,
+                    'native_cmd': 'DeviceFinder.find_or_add(stub system)'}
+    return {'confirmed': False, 'tried': 5}
 
 
 def set_backref_model(pid):
